@@ -1,10 +1,21 @@
 package twig
 
-// Nondeterminism / assertion API. The symbolic engine intercepts these by name;
-// the bodies below are the native replay implementation.
+import "strconv"
+
+// Nondeterminism / assertion API of the harnesses. The symbolic engine (symx) intercepts these
+// functions by name; the bodies below are the native implementation used for replay: values are
+// popped from a recorded vector, assertions are collected.
 var vhReplay []uint64
 var vhPos int
 var vhFailed []string
+var vhObserved []string
+var vhParams = map[string]int{}
+
+type vhStop struct{ why string }
+
+func vhReset(vec []uint64) {
+	vhReplay, vhPos, vhFailed, vhObserved = vec, 0, nil, nil
+}
 
 func vhNext() uint64 {
 	if vhPos >= len(vhReplay) {
@@ -22,41 +33,55 @@ func symString(n int) string {
 	}
 	return string(b)
 }
-func symChoice(n int) int { return int(vhNext()) }
-func symByte() byte       { return byte(vhNext()) }
-func symInt() int         { return int(vhNext()) }
-func symBool() bool       { return vhNext() != 0 }
+func symChoice(n int) int {
+	v := int(vhNext())
+	if v < 0 || v >= n {
+		panic(vhStop{"choice out of range"})
+	}
+	return v
+}
+func symByte() byte { return byte(vhNext()) }
+func symInt() int   { return int(vhNext()) }
+func symBool() bool { return vhNext() != 0 }
 func symAssume(b bool) {
 	if !b {
-		vhFailed = append(vhFailed, "ASSUMPTION-NOT-MET")
+		panic(vhStop{"assumption not met"})
 	}
 }
 func symAssert(b bool, id string) {
 	if !b {
 		vhFailed = append(vhFailed, id)
+		vhObserved = append(vhObserved, "FAIL:"+id)
 	}
 }
-func symCover(id string)                              {}
-func symMapAdversary(on bool)                         {}
-func symMarkReadonly(root interface{}, label string)  {}
-func symMarkShared(root interface{}, label string)    {}
-func symConcurrentPhase(on bool)                      {}
-func symTag(t string) {}
+func symCover(id string)                             { vhObserved = append(vhObserved, "cover:"+id) }
+func symMapAdversary(on bool)                        {}
+func symMarkReadonly(root interface{}, label string) {}
+func symMarkShared(root interface{}, label string)   {}
+func symConcurrentPhase(on bool)                     {}
+func symPoolModel(model int)                         {}
+func symTag(t string)                                { vhObserved = append(vhObserved, "tag:"+t) }
 
-var vhObserved []string
+func symParam(name string, def int) int {
+	if v, ok := vhParams[name]; ok {
+		return v
+	}
+	return def
+}
 
 func symObserve(tag string, v interface{}) {
-	if s, ok := v.(string); ok {
-		vhObserved = append(vhObserved, tag+"="+vhQuote(s))
-		return
-	}
-	if v == nil {
+	switch x := v.(type) {
+	case string:
+		vhObserved = append(vhObserved, tag+"="+strconv.Quote(x))
+	case nil:
 		vhObserved = append(vhObserved, tag+"=<nil>")
-		return
+	case error:
+		vhObserved = append(vhObserved, tag+"=<err>")
+	case int:
+		vhObserved = append(vhObserved, tag+"="+strconv.Itoa(x))
+	case bool:
+		vhObserved = append(vhObserved, tag+"="+strconv.FormatBool(x))
+	default:
+		vhObserved = append(vhObserved, tag+"=?")
 	}
-	if _, ok := v.(error); ok {
-		vhObserved = append(vhObserved, tag+"=<ptr>")
-		return
-	}
-	vhObserved = append(vhObserved, tag+"=?")
 }
